@@ -7,7 +7,10 @@ package run
 import (
 	"context"
 	"fmt"
+	"github.com/saucelabs/forwarder/bind"
 	"github.com/saucelabs/forwarder/internal/zzverif/world"
+	"github.com/saucelabs/forwarder/utils/cobrautil"
+	"github.com/spf13/pflag"
 	"net/http"
 	"net/url"
 	"sort"
@@ -436,6 +439,80 @@ func TestC16(t *testing.T) {
 			x.Failf("dispatch/kind", "kind %d request-rules %v connect-rules %v response-rules %v: %s (map %v)", kind, rq, rc, rr, d, hm)
 		}
 		x.Outcome(fmt.Sprintf("kind%d/%d", kind, len(rules)))
+	}})
+	// (rules-through-the-flags, round 9) the rules as the command receives them: written on the command line, parsed by the
+	// flags of package bind, then - as runE does at start-up - the configuration is described three times (for the log
+	// and for /configz, where values are redacted); after that the rules are wired as the command wires them and applied.
+	// The header set equals the reference applied to the rules AS WRITTEN: describing a configuration does not change it.
+	flagNames := []string{"Authorization", "Proxy-Authorization", "Cookie", "Set-Cookie", "X-Flag"}
+	flagForms := []func(n string) (string, refRule){
+		func(n string) (string, refRule) {
+			return n + ": Bearer s3cr3t-" + n, refRule{header.Add, n, "Bearer s3cr3t-" + n}
+		},
+		func(n string) (string, refRule) { return n + ";", refRule{header.Empty, n, ""} },
+		func(n string) (string, refRule) { return "-" + n, refRule{header.Remove, n, ""} },
+	}
+	s.Add(explore.Scenario{Name: "rules-through-the-flags", Run: func(x *explore.X) {
+		c := &command{httpProxyConfig: forwarder.DefaultHTTPProxyConfig(), kerberosConfig: &forwarder.KerberosConfig{}}
+		fs := pflag.NewFlagSet("verif", pflag.ContinueOnError)
+		bind.RequestHeaders(fs, &c.requestHeaders)
+		bind.ResponseHeaders(fs, &c.responseHeaders)
+		bind.ConnectHeaders(fs, &c.connectHeaders)
+		kind := x.ChooseFree("kind", 3) // GET request, CONNECT request, response to a GET
+		flag := []string{"--header", "--connect-header", "--response-header"}[kind]
+		n := 1 + x.ChooseFree("rules-1", 2)
+		var args []string
+		var rules []refRule
+		for i := 0; i < n; i++ {
+			name := flagNames[x.ChooseFree(fmt.Sprintf("name%d", i), len(flagNames))]
+			text, rr := flagForms[x.ChooseFree(fmt.Sprintf("form%d", i), len(flagForms))](name)
+			args = append(args, flag, text)
+			rules = append(rules, rr)
+		}
+		if err := fs.Parse(args); err != nil {
+			x.Failf("flags/rejected", "%q: %v", args, err)
+			return
+		}
+		described := x.ChooseFree("configuration-described-as-at-start-up", 2) == 1
+		if described {
+			for _, d := range []cobrautil.FlagsDescriber{
+				{Format: cobrautil.OneLine, ShowChangedOnly: true, ShowHidden: true},
+				{Format: cobrautil.OneLine, ShowChangedOnly: false, ShowHidden: true},
+				{Format: cobrautil.Plain, ShowChangedOnly: false, ShowHidden: true},
+			} {
+				if _, err := d.DescribeFlags(fs); err != nil {
+					x.Failf("flags/describe", "%q: %v", args, err)
+					return
+				}
+			}
+		}
+		c.configureHeadersModifiers()
+		hm := http.Header{"X-A": {"0"}, "Cookie": {"c=1"}}
+		ref := refFrom(hm)
+		switch kind {
+		case 0, 1:
+			req := &http.Request{Method: []string{"GET", "CONNECT"}[kind], Header: hm}
+			for _, mod := range c.httpProxyConfig.RequestModifiers {
+				if err := mod.ModifyRequest(req); err != nil {
+					x.Failf("flags/error", "request modifier: %v", err)
+				}
+			}
+		default:
+			res := &http.Response{Header: hm, Request: &http.Request{Method: "GET"}}
+			for _, mod := range c.httpProxyConfig.ResponseModifiers {
+				if err := mod.ModifyResponse(res); err != nil {
+					x.Failf("flags/error", "response modifier: %v", err)
+				}
+			}
+		}
+		for _, r := range rules {
+			ref.apply(r)
+		}
+		x.Check()
+		if d := ref.compare(hm, ""); d != "" {
+			x.Failf("flags/rules-differ-from-what-was-written", "%q (configuration described first: %v): %s (map %v)", args, described, d, hm)
+		}
+		x.Outcome(fmt.Sprintf("kind%d/%d/%v", kind, n, described))
 	}})
 	// (connect-rules-at-the-upstream-proxy, Engine S) a client CONNECT relayed through an upstream HTTP proxy: the
 	// CONNECT that proxy receives carries the client's fields with the --connect-header rules applied to them in
